@@ -21,7 +21,7 @@ use crate::world::*;
 
 pub const USERS: [&str; 3] = ["user1", "user2", "user3"];
 pub const DURS: [u64; 4] = [86_400, 86_401, 15_778_463, 31_536_000];
-pub const REWARDS: [&str; 3] = ["uwhale", "uusdc", "rwd"];
+pub const REWARDS: [&str; 4] = ["uwhale", "uusdc", "rwd", "rwd2"];
 
 pub struct FlowView {
     pub flow_id: u64,
@@ -42,6 +42,7 @@ pub struct IncRun {
     pub collector: Addr,
     pub lp: Addr,
     pub rwd: Addr,
+    pub rwd2: Addr,
     pub users: Vec<Addr>,
     pub fee_asset: String,
 }
@@ -58,6 +59,7 @@ impl IncRun {
         let collector = w.add_account("collector");
         let lp = match w.add_cw20("lptoken", "LPT", 6) { A::Cw20(a) => a, _ => unreachable!() };
         let rwd = match w.add_cw20("reward", "RWD", 6) { A::Cw20(a) => a, _ => unreachable!() };
+        let rwd2 = match w.add_cw20("rewardtwo", "RWDB", 6) { A::Cw20(a) => a, _ => unreachable!() };
         let fee = if fee_asset == "uwhale" { A::Native("uwhale".into()).asset(1000) } else { A::Cw20(rwd.clone()).asset(1000) };
         let factory = w.new_incentive_factory(&collector, &mock, fee);
         let incentive = w.create_incentive(&factory, &AssetInfo::Token { contract_addr: lp.to_string() }, "incentive").unwrap();
@@ -65,21 +67,22 @@ impl IncRun {
         for u in &users {
             w.fund(u, &A::Cw20(lp.clone()), 1u128 << 110);
             w.fund(u, &A::Cw20(rwd.clone()), 1u128 << 110);
+            w.fund(u, &A::Cw20(rwd2.clone()), 1u128 << 110);
             w.mint_native(u, "uwhale", 1u128 << 110);
             w.mint_native(u, "uusdc", 1u128 << 110);
         }
         let owner = w.owner.clone();
         w.mint_native(&owner, "uwhale", 1u128 << 100);
-        IncRun { w, factory, incentive, mock, collector, lp, rwd, users, fee_asset: fee_asset.to_string() }
+        IncRun { w, factory, incentive, mock, collector, lp, rwd, rwd2, users, fee_asset: fee_asset.to_string() }
     }
 
     pub fn reward_asset(&self, name: &str) -> A {
-        match name { "rwd" => A::Cw20(self.rwd.clone()), d => A::Native(d.to_string()) }
+        match name { "rwd" => A::Cw20(self.rwd.clone()), "rwd2" => A::Cw20(self.rwd2.clone()), d => A::Native(d.to_string()) }
     }
     fn reward_name(&self, info: &AssetInfo) -> String {
         match info {
             AssetInfo::NativeToken { denom } => denom.clone(),
-            AssetInfo::Token { contract_addr } => if *contract_addr == self.rwd.to_string() { "rwd".into() } else if *contract_addr == self.lp.to_string() { "lp".into() } else { contract_addr.clone() },
+            AssetInfo::Token { contract_addr } => if *contract_addr == self.rwd.to_string() { "rwd".into() } else if *contract_addr == self.rwd2.to_string() { "rwd2".into() } else if *contract_addr == self.lp.to_string() { "lp".into() } else { contract_addr.clone() },
         }
     }
 
@@ -124,7 +127,7 @@ impl IncRun {
                 }
                 json!({"res": "ok", "r": Value::Object(m)})
             }
-            Err(_) => json!({"res": "rejected", "r": {"uwhale": "0", "uusdc": "0", "rwd": "0"}}),
+            Err(_) => json!({"res": "rejected", "r": {"uwhale": "0", "uusdc": "0", "rwd": "0", "rwd2": "0"}}),
         }
     }
 
@@ -217,7 +220,7 @@ impl IncRun {
                 for f in args["funds"].as_array().unwrap() {
                     let d = f["d"].as_str().unwrap();
                     let x: u128 = f["amt"].as_str().unwrap().parse().unwrap();
-                    if d == "rwd" { self.w.set_allowance(&u, &self.rwd.clone(), &inc, x); } else if x > 0 { funds.push(coin(x, d)); }
+                    if d == "rwd" { self.w.set_allowance(&u, &self.rwd.clone(), &inc, x); } else if d == "rwd2" { self.w.set_allowance(&u, &self.rwd2.clone(), &inc, x); } else if x > 0 { funds.push(coin(x, d)); }
                 }
                 funds.sort_by(|a, b| a.denom.cmp(&b.denom));
                 dpre = self.w.digest();
